@@ -8,6 +8,7 @@
   That the *implementation* does not panic or hang on odd shapes and failing calls is observed by the
   correspondence (outcome class of every scan, under injected faults), not proved.
 -/
+import EscProofs.P.Forever
 import EscProofs.P.C12
 namespace Esc.P
 open Esc Esc.Spec
